@@ -78,6 +78,13 @@ def cases(tier, seed):
       c.update(avq=pick([None, "quantized_bits(8,0,1)", "quantized_po2(4)"]), xin=(ri(1, 2), ri(2, 6), ri(2, 6), ri(1, 3)))
     elif kind == "scaleshift":
       c.update(xin=(ri(1, 2), ri(2, 6), ri(1, 3)))
+    if kind in ("conv2d", "dw", "sep2d", "avgpool"):
+      # how sizes are spelled for the quantized layer: tuple, bare int (square geometry) or list
+      c["spell"] = pick(["tuple", "tuple", "int", "int", "list"])
+      if c["spell"] == "int":
+        for key in ("k", "pool"):
+          if key in c:
+            c[key] = (c[key][0], c[key][0])
     if kind in ("sep1d", "sep2d"):
       c["d"] = 1
     if kind in ("conv1d", "conv2d", "dw", "sep1d", "sep2d") and rnd.random() < 0.3 and c["s"] in (1, (1, 1)):
@@ -114,6 +121,19 @@ def build(c, rs):
     return "glorot_uniform"
   kw = dict(use_bias=c["use_bias"])
   kl = None
+
+  def sp(v):
+    """Argument spelling for the quantized layer only: Keras accepts an int, a tuple or a list for sizes;
+    the stock reference layer always gets the tuple."""
+    if v is None:
+      return None
+    v = tuple(v)
+    how = c.get("spell", "tuple")
+    if how == "int" and len(set(v)) == 1:
+      return v[0]
+    if how == "list":
+      return list(v)
+    return v
   if kind == "dense":
     ql = qk.QDense(c["units"], kernel_quantizer=c["wq"], bias_quantizer=c["bq"], activation=c["aq"],
                    kernel_initializer=wi(), bias_initializer="zeros", **kw)
@@ -123,12 +143,12 @@ def build(c, rs):
                     bias_quantizer=c["bq"], activation=c["aq"], kernel_initializer=wi(), bias_initializer="zeros", **kw)
     kl = L.Conv1D(c["filters"], c["k"], strides=c["s"], padding=c["pad"], dilation_rate=c["d"], **kw)
   elif kind == "conv2d":
-    ql = qk.QConv2D(c["filters"], tuple(c["k"]), strides=tuple(c["s"]), padding=c["pad"], dilation_rate=c["d"], groups=c["groups"],
+    ql = qk.QConv2D(c["filters"], sp(c["k"]), strides=sp(c["s"]), padding=c["pad"], dilation_rate=c["d"], groups=c["groups"],
                     kernel_quantizer=c["wq"], bias_quantizer=c["bq"], activation=c["aq"], kernel_initializer=wi(),
                     bias_initializer="zeros", **kw)
     kl = L.Conv2D(c["filters"], tuple(c["k"]), strides=tuple(c["s"]), padding=c["pad"], dilation_rate=c["d"], groups=c["groups"], **kw)
   elif kind == "dw":
-    ql = qk.QDepthwiseConv2D(tuple(c["k"]), strides=tuple(c["s"]), padding=c["pad"], depth_multiplier=c["dm"], dilation_rate=c["d"],
+    ql = qk.QDepthwiseConv2D(sp(c["k"]), strides=sp(c["s"]), padding=c["pad"], depth_multiplier=c["dm"], dilation_rate=c["d"],
                              depthwise_quantizer=c["wq"], bias_quantizer=c["bq"], activation=c["aq"],
                              depthwise_initializer=wi(), bias_initializer="zeros", **kw)
     kl = L.DepthwiseConv2D(tuple(c["k"]), strides=tuple(c["s"]), padding=c["pad"], depth_multiplier=c["dm"], dilation_rate=c["d"], **kw)
@@ -138,7 +158,7 @@ def build(c, rs):
                              activation=c["aq"], depthwise_initializer=wi(), pointwise_initializer=wi(), bias_initializer="zeros", **kw)
     kl = L.SeparableConv1D(c["filters"], c["k"], strides=c["s"], padding=c["pad"], depth_multiplier=c["dm"], dilation_rate=c["d"], **kw)
   elif kind == "sep2d":
-    ql = qk.QSeparableConv2D(c["filters"], tuple(c["k"]), strides=tuple(c["s"]), padding=c["pad"], depth_multiplier=c["dm"], dilation_rate=c["d"],
+    ql = qk.QSeparableConv2D(c["filters"], sp(c["k"]), strides=sp(c["s"]), padding=c["pad"], depth_multiplier=c["dm"], dilation_rate=c["d"],
                              depthwise_quantizer=c["wq"], pointwise_quantizer=c["wq2"], bias_quantizer=c["bq"],
                              activation=c["aq"], depthwise_initializer=wi(), pointwise_initializer=wi(), bias_initializer="zeros", **kw)
     kl = L.SeparableConv2D(c["filters"], tuple(c["k"]), strides=tuple(c["s"]), padding=c["pad"], depth_multiplier=c["dm"], dilation_rate=c["d"], **kw)
@@ -151,7 +171,7 @@ def build(c, rs):
             state_quantizer=c["sq"], activation=c["aq"], return_sequences=c["seq"], kernel_initializer=wi(),
             recurrent_initializer=wi(), bias_initializer="zeros", **ex, **kw)
   elif kind == "avgpool":
-    ql = qk.QAveragePooling2D(tuple(c["pool"]), strides=None if c["s"] is None else tuple(c["s"]), padding=c["pad"],
+    ql = qk.QAveragePooling2D(sp(c["pool"]), strides=sp(c["s"]), padding=c["pad"],
                               average_quantizer=c["avq"], activation=c["aq"])
   elif kind == "gavgpool":
     ql = qk.QGlobalAveragePooling2D(average_quantizer=c["avq"], activation=c["aq"])
